@@ -267,3 +267,268 @@ def _as_mask(nasset):
     ("C18", "neutral", [], LOC, "        stop = pv[0] + 1\n        if stop == 0:\n            stop = None\n        return slice(pv[0], stop)",
      "        return slice(pv[0], (pv[0] + 1) or None)", "index2slice: `stop or None` for the single entry"),
 ]
+
+
+# ------------------------------------------------------------------------------------------------------------------------------------
+# second hardening pass: the refactorings of the neutral patches N5-N8 in other spellings (each a necessary robustness of the value-level
+# rules), and broken variants written in the new spellings (the rules must still see through them)
+_DEF_MK = "def mkusetmask(nasset=None):\n"
+_HEX_TABLE = '''_SET_MASKS = {
+    "m": 0x1, "b": 0x200002, "o": 0x4, "r": 0x8, "s": 0x600, "q": 0x400000, "c": 0x100000, "e": 0x800,
+    "a": 0x70008A, "l": 0x300102, "t": 0xB0010A, "f": 0x7000CE, "n": 0x7006EE, "g": 0x7006FF, "p": 0x701EFF,
+    "fe": 0x7048CE, "d": %s, "ne": 0x702EEE,
+    "u1": 0x80000000, "u2": 0x40000000, "u3": 0x20000000, "u4": 0x10000000, "u5": 0x8000000, "u6": 0x4000000,
+}
+
+
+def mkusetmask(nasset=None):
+    if isinstance(nasset, str):
+        result = 0
+        for name in nasset.split("+"):
+            result |= _SET_MASKS[name]
+        return result
+    return _SET_MASKS.copy()
+
+
+def _mkusetmask_previous(nasset=None):
+'''
+_LOOP_TABLE = '''import functools
+
+_BASE_BITS = {"m": (0,), "b": (1, 21), "o": (2,), "r": (3,), "s": (9, 10), "q": (22,), "c": (20,), "e": (11,)}
+_SUPERSETS = [
+    ("a", ("q", "r", "b", "c"), 7), ("l", ("c", "b"), 8), ("t", ("l", "r"), 23), ("f", ("a", "o"), 6), ("n", ("f", "s"), 5),
+    ("g", ("n", "m"), 4), ("p", ("g", "e"), 12), ("fe", ("f", "e"), 14), ("d", ("e", "a"), 15), ("ne", ("n", "e"), 13),
+]
+_USETMASK = {}
+for _name, _bits in _BASE_BITS.items():
+    _mask = 0
+    for _bit in _bits:
+        _mask |= 1 << _bit
+    _USETMASK[_name] = _mask
+for _name, _members, _bit in _SUPERSETS:
+    _USETMASK[_name] = 2 ** _bit
+    for _member in _members:
+        _USETMASK[_name] |= _USETMASK[_member]
+_USETMASK.update({"u%d" % _j: 1 << (32 - _j) for _j in range(1, 7)})
+
+
+def mkusetmask(nasset=None):
+    if isinstance(nasset, str):
+        return functools.reduce(lambda acc, name: acc | _USETMASK[name], nasset.split("+"), 0)
+    return {**_USETMASK}
+
+
+def _mkusetmask_previous(nasset=None):
+'''
+_REFUSAL = "    if np.any(~pvmajor & pvminor):\n        raise ValueError(\"`minorset`"
+_MAT_VIEWS = '''    haystack = _bytes_view(haystack, out_dtype).ravel()
+    needles = _bytes_view(needles, out_dtype).ravel()
+'''
+
+RECIPES += [
+    # ---- the mask table is the value mkusetmask returns
+    ("C18", "neutral", [], N2P, _DEF_MK, _HEX_TABLE % "0x70888A", "mkusetmask: module-level table of hex literals, indexed / copied by the function"),
+    ("C18", "break", ["C18-R1"], N2P, _DEF_MK, _HEX_TABLE % "0x30888A", "mkusetmask: module-level hex table in which d has lost the q bit"),
+    ("C18", "neutral", [], N2P, _DEF_MK, _LOOP_TABLE, "mkusetmask: table filled by module-level loops over data tables, reduce with a lambda, {**table}"),
+    ("C18", "neutral", [], N2P, "        for set_ in sets:\n            usetmask1 = usetmask1 | usetmask[set_]\n",
+     "        for word in map(usetmask.__getitem__, sets):\n            usetmask1 |= word\n", "mkusetmask: map(table.__getitem__, names), |="),
+    ("C18", "break", ["C18-R1"], N2P, "            usetmask1 = usetmask1 | usetmask[set_]", "            usetmask1 = usetmask[set_]",
+     "mkusetmask: 'x+y' keeps only the last set"),
+    ("C18", "break", ["C18-R1"], N2P, "        sets = nasset.split(\"+\")\n", "        sets = nasset.split(\"+\")[:1]\n", "mkusetmask: 'x+y' keeps only the first set"),
+    # ---- mksetpv: ufunc spellings, other containment tests, helpers, loops
+    ("C18", "neutral", [], N2P, _MKSETPV, '''    if isinstance(major, str):
+        major = mkusetmask(major)
+    if isinstance(minor, str):
+        minor = mkusetmask(minor)
+    words = uset["nasset"].to_numpy()
+    in_major = np.bitwise_and(words, major).astype(bool)
+    in_minor = np.bitwise_and(words, minor).astype(bool)
+    if np.count_nonzero(np.logical_and(in_minor, np.logical_not(in_major))) > 0:
+        raise ValueError("`minorset` is not completely containedin `majorset`")
+    return np.compress(in_major, in_minor)
+''', "mksetpv: bitwise_and + astype(bool), logical_and / logical_not, count_nonzero > 0, np.compress"),
+    ("C18", "neutral", [], N2P, _MKSETPV, '''    major, minor = [s if isinstance(s, (int, np.integer)) else mkusetmask(s) for s in (major, minor)]
+    uset_set = uset["nasset"].values
+    pvmajor = np.not_equal(uset_set & major, 0)
+    pvminor = np.not_equal(uset_set & minor, 0)
+    outside = pvminor.copy()
+    outside[pvmajor] = False
+    if outside.any():
+        raise ValueError("`minorset` is not completely containedin `majorset`")
+    return pvminor[pvmajor]
+''', "mksetpv: comprehension over (major, minor), isinstance(int) test, np.not_equal, outside vector by item store"),
+    ("C18", "neutral", [], N2P, '''    if isinstance(major, str):
+        major = mkusetmask(major)
+    if isinstance(minor, str):
+        minor = mkusetmask(minor)
+    uset_set = uset["nasset"].values
+    pvmajor = (uset_set & major) != 0
+    pvminor = (uset_set & minor) != 0
+''', '''    uset_set = uset["nasset"].values
+    member = []
+    for nasset in (major, minor):
+        if isinstance(nasset, str):
+            nasset = mkusetmask(nasset)
+        member.append((uset_set & nasset) != 0)
+    pvmajor, pvminor = member
+''', "mksetpv: both membership vectors computed in a loop over (major, minor), collected in a list"),
+    ("C18", "neutral", [], N2P, _MKSETPV, '''    if isinstance(major, str):
+        major = mkusetmask(major)
+    if isinstance(minor, str):
+        minor = mkusetmask(minor)
+    uset_set = uset["nasset"].values
+    pvmajor = in_set(uset_set, major)
+    pvminor = in_set(uset_set, minor)
+    if (pvminor > pvmajor).any():
+        raise ValueError(_NOT_CONTAINED)
+    return pvminor[pvmajor]
+
+
+_NOT_CONTAINED = "`minorset` is not completely containedin `majorset`"
+
+
+def in_set(words, mask):
+    """True where the DOF is in a set of `mask`"""
+    return np.not_equal(words & mask, 0)
+''', "mksetpv: documented helper that is not in __all__, (minor > major).any(), message as a module constant"),
+    ("C18", "neutral", [], N2P, _REFUSAL, "    if not pvmajor[pvminor].all():\n        raise ValueError(\"`minorset`", "mksetpv: refusal test written as not all(pvmajor[pvminor])"),
+    ("C18", "neutral", [], N2P, _REFUSAL, "    if not np.less_equal(pvminor, pvmajor).all():\n        raise ValueError(\"`minorset`",
+     "mksetpv: refusal test written as not all(minor <= major)"),
+    ("C18", "break", ["C18-R2"], N2P, _REFUSAL, "    if not pvminor[pvmajor].all():\n        raise ValueError(\"`minorset`", "mksetpv: refuses unless every major DOF is in minor"),
+    ("C18", "break", ["C18-R2"], N2P, _REFUSAL, "    if (pvminor < pvmajor).any():\n        raise ValueError(\"`minorset`", "mksetpv: containment comparison the wrong way round"),
+    ("C18", "break", ["C18-R2"], N2P, "    pvmajor = (uset_set & major) != 0\n", "    pvmajor = np.equal(uset_set & major, 0)\n", "mksetpv: major membership inverted (np.equal)"),
+    ("C18", "break", ["C18-R2"], N2P, "    pvminor = (uset_set & minor) != 0\n", "    pvminor = np.not_equal(np.bitwise_or(uset_set, minor), 0)\n", "mksetpv: bitwise_or instead of bitwise_and"),
+    # ---- mkdofpv
+    ("C18", "neutral", [], N2P, _MKDOFPV_TAIL, '''    order = uset_set.argsort()
+    at = np.searchsorted(uset_set, _dof, sorter=order).clip(max=len(order) - 1)
+    pv = np.take(order, at)
+    found = np.equal(uset_set[pv], _dof)
+    if found.all():
+        return pv, dof
+    if strict is True:
+        raise ValueError("set '%s' does not contain all of the dof in `dof`. These are missing:\\n%s" % (nasset, dof[~found]))
+    keep = np.flatnonzero(found)
+    return pv[keep], dof[keep]
+''', "mkdofpv: .clip(max=), np.take, np.equal, early return, strict is True, selection by flatnonzero(found)"),
+    ("C18", "break", ["C18-R3"], N2P, _MKDOFPV_TAIL, '''    order = uset_set.argsort()
+    at = np.searchsorted(uset_set, _dof, sorter=order).clip(max=len(order) - 1)
+    pv = np.take(order, at)
+    found = np.equal(uset_set[pv], _dof)
+    if found.all():
+        return pv, dof
+    if strict:
+        raise ValueError("missing")
+    keep = np.flatnonzero(~found)
+    return pv[keep], dof[keep]
+''', "mkdofpv: non-strict keeps the mismatches (flatnonzero form)"),
+    ("C18", "break", ["C18-R3"], N2P, "    pvi[pvi == i.size] -= 1\n    pv = i[pvi]\n\n    chk", "    pvi = pvi.clip(min=0)\n    pv = i[pvi]\n\n    chk", "mkdofpv: clip without an upper bound"),
+    ("C18", "neutral", [], N2P, "        if nasset != \"p\":\n            setpv = mksetpv(uset, \"p\", nasset)", "        if nasset not in (\"p\",):\n            setpv = mksetpv(uset, \"p\", nasset)",
+     "mkdofpv: nasset not in ('p',)"),
+    # ---- mat_intersect
+    ("C18", "neutral", [], LOC, _MAT_TAIL, '''    order = np.argsort(haystack, kind="stable")
+    at = np.minimum(haystack.searchsorted(needles, sorter=order), order.shape[0] - 1)
+    hay_rows = order.take(at)
+    hit = np.equal(haystack.take(hay_rows), needles)
+    need_rows = hit.nonzero()[0]
+    hay_rows = np.compress(hit, hay_rows)
+    pair = (need_rows, hay_rows)
+    return pair[::-1] if switch else pair
+''', "mat_intersect: take / compress / equal ufuncs, reversed pair"),
+    ("C18", "neutral", [], LOC, _MAT_TAIL, '''    pv2 = nearest_sorted(haystack, needles)
+    pv1 = np.where(haystack[pv2] == needles)[0]
+    pv2 = pv2[pv1]
+    if switch:
+        pv1, pv2 = pv2, pv1
+    return pv1, pv2
+
+
+def nearest_sorted(keys, wanted):
+    order = keys.argsort()
+    at = np.searchsorted(keys, wanted, sorter=order)
+    at[at == order.size] -= 1
+    return order[at]
+''', "mat_intersect: look-up in an undocumented helper whose name has no underscore"),
+    ("C18", "neutral", [], LOC, _MAT_VIEWS, '''    views = [None] * 2
+    for k, arr in enumerate((haystack, needles)):
+        views[k] = _bytes_view(arr, out_dtype).ravel()
+    haystack, needles = views[0], views[1]
+''', "mat_intersect: views stored by index into a list in a loop"),
+    ("C18", "neutral", [], LOC, _MAT_VIEWS, '''    views = {}
+    views["hay"] = _bytes_view(haystack, out_dtype).ravel()
+    views["need"] = _bytes_view(needles, out_dtype).ravel()
+    haystack = views["hay"]
+    needles = views["need"]
+''', "mat_intersect: views kept in a dict (a local bound to a mutable display)"),
+    ("C18", "neutral", [], LOC, _MAT_VIEWS, '''    rowviews = []
+    for arr in (haystack, needles):
+        arr = np.ascontiguousarray(arr, out_dtype)
+        if np.issubdtype(arr.dtype, np.floating):
+            arr += 0.0
+        rowviews.append(arr.view(np.dtype((np.void, arr.dtype.itemsize * arr.shape[-1]))).ravel())
+    haystack, needles = rowviews
+''', "mat_intersect: _bytes_view inlined as a loop over (haystack, needles) that appends to a list"),
+    ("C18", "break", ["C18-R3"], LOC, _MAT_VIEWS, '''    rowviews = []
+    for arr in (haystack, needles):
+        arr = np.ascontiguousarray(arr, arr.dtype)
+        rowviews.append(arr.view(np.dtype((np.void, arr.dtype.itemsize * arr.shape[-1]))).ravel())
+    haystack, needles = rowviews
+''', "mat_intersect: loop form in which each input keeps its own dtype"),
+    ("C18", "neutral", [], LOC, '''    if (keep == 0 and r1 <= r2) or keep == 1:
+        needles = D1
+        haystack = D2
+        switch = False
+    else:
+        needles = D2
+        haystack = D1
+        switch = True
+''', '''    switch = not ((keep == 0 and r1 <= r2) or keep == 1)
+    needles, haystack = (D2, D1) if switch else (D1, D2)
+''', "mat_intersect: switch computed first, tuple conditional for needles / haystack"),
+    ("C18", "neutral", [], LOC, "        return np.array([], dtype=int), np.array([], dtype=int)\n\n    # loop over", "        return np.empty(0, dtype=int), np.zeros((0,), int)\n\n    # loop over",
+     "mat_intersect: empty results spelled np.empty(0) / np.zeros((0,))"),
+    # ---- expanddof
+    ("C18", "neutral", [], N2P, _EXPAND, '''    if dof.ndim < 2 or dof.shape[1] == 1:
+        first = 1 if grids_only is True else 0
+        comps = np.arange(first, 7)
+        ids = dof.ravel()
+        return np.column_stack((np.repeat(ids, comps.size), np.tile(comps, len(ids))))
+    if np.max(dof[:, 1]) <= 6:
+        return dof
+    rows = []
+    for node, packed in dof:
+        for digit in "%d" % packed:
+            rows.append((node, int(digit)))
+    edof = np.array(rows)
+    if not np.all(edof[:, 1] <= 6):
+        raise ValueError("found DOF > 6?")
+    return edof
+''', "expanddof: arange with a conditional start, repeat / tile, digits by a loop nest with %d, not all(<= 6) guard"),
+    ("C18", "neutral", [], N2P, "        return np.array([[n, i] for n in dof.ravel() for i in rg])", '''        rows = []
+        for n in dof.ravel():
+            for i in rg:
+                rows.append([n, i])
+        return np.array(rows)''', "expanddof: id expansion as a loop nest that appends rows"),
+    ("C18", "break", ["C18-R4"], N2P, "        return np.array([[n, i] for n in dof.ravel() for i in rg])", '''        rows = []
+        for i in rg:
+            for n in dof.ravel():
+                rows.append([n, i])
+        return np.array(rows)''', "expanddof: loop nest in the wrong order (component-major rows)"),
+    ("C18", "break", ["C18-R4"], N2P, _EXPAND, '''    if dof.ndim < 2 or dof.shape[1] == 1:
+        rg = range(1, 7) if grids_only else range(7)
+        return np.array([[n, i] for n in dof.ravel() for i in rg])
+    if np.max(dof[:, 1]) <= 6:
+        return dof
+    rows = []
+    for node, packed in dof:
+        for digit in "%d" % packed:
+            rows.append((node, int(digit)))
+    return np.array(rows)
+''', "expanddof: loop form without the > 6 guard"),
+    ("C18", "break", ["C18-R4"], N2P, "        return np.array([[n, i] for n in dof.ravel() for i in rg])",
+     "        ids = dof.ravel()\n        return np.column_stack((np.repeat(ids, 7), np.tile(np.arange(1, 8), ids.size)))", "expanddof: vectorised expansion with components 1..7"),
+    # ---- producer, index2slice
+    ("C18", "neutral", [], OP2, "sset = (uset & n2p.mkusetmask(\"s\")) != 0", "sset = np.not_equal(np.bitwise_and(uset, n2p.mkusetmask(\"s\")), 0)",
+     "_rdop2uset: not_equal(bitwise_and(..), 0)"),
+    ("C18", "neutral", [], LOC, "        stop = pv[-1] + d0\n        if stop < 0:\n            stop = None\n        return slice(pv[0], stop, d0)\n",
+     "        return slice(pv[0], None if (stop := pv[-1] + d0) < 0 else stop, d0)\n", "index2slice: walrus for the stop"),
+]
